@@ -109,11 +109,39 @@ def run(ctx):
             ctx.check(ok, "R05.1", f, "returns-same-stream:" + tag, "the lvalue operator<< returns %s as %s instead of the same stream object" % (rets, f.ret), f)
         # ---- R05.7: what is inserted
         ins = []
+        # (the buffer may be named first: `std::stringstream& buffer = s.sstr();`)
+        bufnames = {"%s.sstr()" % sname}
+        for _, _, e0 in f.roots():
+            x0 = e0["expr"]
+            if x0.get("k") == "decl":
+                for v0 in x0.get("vars", []):
+                    if v0.get("init") is not None and fmt(ir.unwrap(v0["init"])) == "%s.sstr()" % sname and ((v0.get("type") or "").rstrip().endswith("&") or v0.get("ref")):
+                        bufnames.add(v0["name"])
         for bid, i, e in f.roots():
             for n in walk(e["expr"], into_sc=False):
                 bo = ir.as_binop(n)
-                if bo and bo[0] == "<<" and fmt(ir.unwrap(bo[1])) == "%s.sstr()" % sname:
+                if bo and bo[0] == "<<" and fmt(ir.unwrap(bo[1])) in bufnames:
                     ins.append(fmt(ir.unwrap(bo[2])))
+        # the callable's result may be taken first and inserted afterwards (`auto&& v = t(); s.sstr() << std::forward<decltype(v)>(v);`): what is
+        # inserted is then a local whose only definition is the one call of the callable
+        if tag.endswith("callable"):
+            ldefs = {}
+            for _, _, e0 in f.roots():
+                x0 = e0["expr"]
+                if x0.get("k") == "decl":
+                    for v0 in x0.get("vars", []):
+                        if v0.get("init") is not None:
+                            ldefs.setdefault(v0["name"], []).append(fmt(ir.unwrap(v0["init"])))
+            ncalls_t = sum(1 for _, _, e0 in f.roots() for n0 in walk(e0["expr"], into_sc=False) if isinstance(n0, dict) and n0.get("k") in ("call", "ucall") and fmt(n0) in ("%s()" % tname, "?()"))
+            resolved = []
+            for x1 in ins:
+                m1 = re.fullmatch(r"(?:forward|move)\(([A-Za-z_]\w*)\)|([A-Za-z_]\w*)", x1)
+                nm1 = (m1.group(1) or m1.group(2)) if m1 else None
+                if nm1 and ldefs.get(nm1) in (["%s()" % tname], ["?()"]) and ncalls_t == 1:
+                    resolved.append("%s()" % tname)
+                else:
+                    resolved.append(x1)
+            ins = resolved
         want = "?()" if tag.endswith("callable") else tname
         okins = len(ins) == 1 and (ins[0] == want or (tag.endswith("callable") and ins[0] in ("%s()" % tname, "?()")))
         ctx.check(okins, "R05.7", f, "inserts-operand-once:" + tag, "the overload inserts %s into the buffer instead of exactly one `%s`" % (ins, tname + ("()" if tag.endswith("callable") else "")), f)
@@ -149,6 +177,11 @@ def run(ctx):
                 m0 = re.fullmatch(r"\(?(?:move\()?([A-Za-z_][\w@]*)\)?\)?", fmt(e["expr"]))
                 if m0:
                     txt = txt.replace("(*%s)" % m0.group(1), "(*r)")
+        # (... or prepares it under a local owner and hands it to r afterwards: `r = std::move(rec)`)
+        for m1 in re.finditer(r"\(r = (?:move\()?([A-Za-z_][\w@]*)\)?\)|r\.(?:operator=|swap|reset)\((?:move\()?([A-Za-z_][\w@]*?)(?:\.release\(\))?\)?\)", txt):
+            nm1 = m1.group(1) or m1.group(2)
+            if nm1 and nm1 not in ("r", "nullptr"):
+                txt = txt.replace("(*%s)" % nm1, "(*r)")
         ctx.check("set_tag((*r), tag)" in txt, "R05.7", f, "tag-set-from-argument", "the constructor does not set the tag from its argument", f)
         ctx.check(re.search(r"\(\(\*r\), Severity\)", txt) is not None, "R05.7", f, "severity-set-from-template-parameter", "the constructor does not set the record's severity from the template parameter", f)
 
